@@ -1,36 +1,64 @@
-//! rs2lean — translator from a restricted subset of Rust (small, pure methods of one `impl` block) to Lean 4.
+//! rs2lean — translator from a restricted subset of Rust (small methods of the `impl` blocks of one file) to Lean 4.
 //!
 //! The translation is purely syntactic and state-passing:
 //!   * a `&mut self` method becomes a function that takes `self` and returns the new `self`
 //!     (paired with the return value, `(self, value)`, when the Rust method returns one);
 //!   * every statement that changes a field becomes `let self := { self with f := … }`;
-//!   * an `if`/`match` statement becomes `let self := if … then … else self`;
-//!   * an `if`/`match` statement containing an early `return` takes the rest of the block into its branches.
+//!   * an `if`/`match` statement becomes `let self := if … then … else self` (`let (self, x) := …` when it also assigns
+//!     locals declared outside it);
+//!   * an `if`/`match` statement containing an early exit (`return`, `panic!`) takes the rest of the block into its branches;
+//!   * a mutable borrow of a `Vec` element (`let slot = self.v.get_mut(i)?`, `if let Some(slot) = self.v.get_mut(i)`) is a local
+//!     copy of the element; every assignment through it is followed by the write-back `self.v := vecSet self.v i slot`
+//!     (`i` is frozen when the borrow is taken);
+//!   * `e?`, a read of a `ManuallyDrop` cell, `get_unchecked(i)` are `match … with | none => <the function returns None> | some x => …`
+//!     around the rest of the block.
 //! Everything outside the supported subset is rejected with an error (file:line: message) — the translator never guesses.
 //!
 //! Supported subset
-//!   items       `impl T { fn f(&self | &mut self, x: Ty, …) [-> Ty] { … } }`, no generics on the fn, no `unsafe`
-//!   types       u8 u16 u32 u64 usize (→ Nat), bool, `Vec<T>` (→ List), `Option<T>`, named types given by `--type R=L`
-//!   statements  `let x = e;` (shadowing allowed, no `mut`), `self.f = e;`, `self.f += e;`, `self.f -= e;`,
-//!               `self.f.insert(i, x);` `self.f.push(x);` `self.f.remove(i);` (f a Vec field),
-//!               `assert!(…);` / `debug_assert!(…);` (skipped, listed in the header), `return [e];`,
+//!   items       `impl[<T, …>] X[<T, …>] { fn f([&self | &mut self,] x: Ty, …) [-> Ty] { … } }` for several `X` of one file;
+//!               the generic parameters of the impl must be given Lean types (`--type T=α`); a generic parameter of the fn
+//!               must be a closure type (`F: FnOnce(A) -> B`, → a pure Lean function)
+//!   types       u8 u16 u32 u64 usize NonZeroU32 NonZeroU64 (→ Nat), bool, `Vec<T>` (→ List), `Option<T>`, tuples, `&T` (→ T),
+//!               `ManuallyDrop<T>` (→ Option T), `PhantomData<…>` (dropped), `impl Fn*(A) -> B`, `Self`,
+//!               named types given by `--type R=L` or emitted by `--struct R`; structs / unions of the file for field access
+//!               (a union-typed field is flattened into the record that contains it: every member is a field)
+//!   statements  `let x = e;` `let x;` … `x = e;` (deferred initialisation; no `mut`), `P = e;` `P += e;` `P -= e;` where `P` is
+//!               `self.f…` or `x.f…` / `*x` for a mutable borrow `x` of a Vec element, `*V.get_unchecked_mut(i) = e;`,
+//!               `V.insert(i, x);` `V.push(x);` `V.remove(i);` `V.resize(n, x);` `V.swap_remove(i);` (V a Vec field),
+//!               `assert!`/`debug_assert!`/`assert_eq!`/`assert_ne!`/`debug_assert_eq!`/`assume_unchecked(..)` (skipped, listed),
+//!               `panic!(..)` (the function then returns an `Outcome`), `return [e];`, `unsafe { e }` (transparent, listed),
 //!               `if c {…} [else if …] [else {…}]`, `if let Some(x) = e {…} [else {…}]`,
 //!               `match e { … }` on a fieldless enum of the same file (one arm per variant, no guard, no `_`) or on an `Option`
-//!   expressions integer / bool literals, locals, `self.f`, `e as u32|usize|…` (identity), `+ -`, `< <= > >= == !=`, `&& || !`,
-//!               `self.f.len()`, `self.f.iter().position(|&p| p == x)`, `Some(e)`, `None`, parentheses
+//!   expressions integer / bool literals, locals, places `x.f.g`, `e as u32|usize|…` (identity), `+ - %`, `< <= > >= == !=`,
+//!               `&& || !`, `u32::MAX`, `V.len()`, `V.get(i)`, `V.get_mut(i)`, `V.get_unchecked[_mut](i)`, `V.swap_remove(i)`,
+//!               `V.iter().position(|&p| p == x)`, `Some(e)`, `None`, tuples, struct literals, `if c { a } else { b }`,
+//!               `e?`, `e.unwrap()`, `e.unwrap_unchecked()`, `e.wrapping_add(k)`, `nz.get()`, `f(x)` for a closure parameter,
+//!               `T::g(..)` / `x.g(..)` for a function translated earlier in the same run or given by `--prim`,
+//!               `ManuallyDrop::new(e)`, `ManuallyDrop::take(&mut P)`, `mem::replace(dest, e)`, parentheses
 
 use proc_macro2::Span;
-use std::collections::BTreeSet;
+use std::collections::{BTreeMap, BTreeSet};
 use syn::spanned::Spanned;
 use syn::{BinOp, Block, Expr, FnArg, ImplItem, Item, Lit, Pat, ReturnType, Stmt, Type, UnOp};
+
+macro_rules! note {
+    ($t:ident, $f:ident, $s:expr) => {{
+        let s: String = $s;
+        note_once(&mut $t.notes.$f, s);
+    }};
+}
+
+mod expr;
+mod stmt;
 
 #[derive(Clone, Debug, Default)]
 pub struct Options {
     pub impl_type: String,
+    /// `name` (a method of `impl_type`) or `Type::name`
     pub fns: Vec<String>,
     /// Lean namespace of the output (default `Evenio.Gen.<ImplType>`)
     pub namespace: Option<String>,
-    /// Lean type standing for `Self` (default: the impl type's name)
+    /// Lean type standing for `Self` in `impl_type` (default: `--type <impl_type>=…`, else the impl type's name)
     pub self_type: Option<String>,
     /// Rust type name → Lean type
     pub type_map: Vec<(String, String)>,
@@ -42,6 +70,14 @@ pub struct Options {
     pub opens: Vec<String>,
     /// how the source file is named in the output
     pub source_label: String,
+    /// `Struct.field` or `Struct.field.member` (member of a union-typed field) → Lean field name
+    pub field_map: Vec<(String, String)>,
+    /// `Union.member` → the Lean value the member's field gets in a union literal that initialises another member
+    pub inactive: Vec<(String, String)>,
+    /// functions / constants taken as given: (`T::f(A, B) -> R` | `T::f(self, A) -> R` | `T::C: R`, Lean term; `_` = identity)
+    pub prims: Vec<(String, String)>,
+    /// structs of the file to emit as Lean structures
+    pub structs: Vec<String>,
 }
 
 #[derive(Debug)]
@@ -63,6 +99,13 @@ enum Ty {
     Named { rust: String, lean: String, tyvar: bool },
     Vec(Box<Ty>),
     Opt(Box<Ty>),
+    Tuple(Vec<Ty>),
+    Fn(Vec<Ty>, Box<Ty>),
+    /// `ManuallyDrop<T>`: a cell that holds a value or has been emptied
+    Cell(Box<Ty>),
+    Phantom,
+    /// not known to the translator (a `None` literal, a deferred `let`)
+    Unknown,
 }
 
 impl Ty {
@@ -70,11 +113,20 @@ impl Ty {
         match self {
             Ty::Int(..) => "Nat".into(),
             Ty::Bool => "Bool".into(),
-            Ty::Unit => "Unit".into(),
+            Ty::Unit | Ty::Phantom | Ty::Unknown => "Unit".into(),
             Ty::Named { lean, .. } => lean.clone(),
             Ty::Vec(t) => format!("List {}", paren_ty(&t.lean())),
-            Ty::Opt(t) => format!("Option {}", paren_ty(&t.lean())),
+            Ty::Opt(t) | Ty::Cell(t) => format!("Option {}", paren_ty(&t.lean())),
+            Ty::Tuple(ts) => ts.iter().map(|t| paren_ty(&t.lean())).collect::<Vec<_>>().join(" × "),
+            Ty::Fn(a, r) => {
+                let mut s: Vec<String> = a.iter().map(|t| paren_ty(&t.lean())).collect();
+                s.push(paren_ty(&r.lean()));
+                s.join(" → ")
+            }
         }
+    }
+    fn usize() -> Ty {
+        Ty::Int(64, "usize".into())
     }
 }
 
@@ -109,22 +161,91 @@ impl L {
     }
 }
 
-type Env = Vec<(String, Ty)>;
+/// a resolved place `base.f.g`
+#[derive(Clone, Debug)]
+struct PlaceInfo {
+    base: String,
+    lean_path: Vec<String>,
+    ty: Ty,
+}
+
+impl PlaceInfo {
+    fn read(&self) -> String {
+        let mut s = lean_ident(&self.base);
+        for p in &self.lean_path {
+            s.push('.');
+            s.push_str(&lean_ident(p));
+        }
+        s
+    }
+    /// the Lean term of `base` with the place replaced by `v`
+    fn update(&self, v: &str) -> String {
+        fn upd(base: String, path: &[String], v: &str) -> String {
+            let p = lean_ident(&path[0]);
+            if path.len() == 1 {
+                format!("{{ {base} with {p} := {v} }}")
+            } else {
+                format!("{{ {base} with {p} := {} }}", upd(format!("{base}.{p}"), &path[1..], v))
+            }
+        }
+        upd(lean_ident(&self.base), &self.lean_path, v)
+    }
+}
+
+/// a mutable borrow of the element `vec[idx]`
+#[derive(Clone, Debug)]
+struct Borrow {
+    vec: PlaceInfo,
+    /// the Lean name the index was frozen under
+    idx: String,
+    /// the Lean term the borrow was created as (guards the side channel `last_borrow`)
+    value: String,
+}
+
+#[derive(Clone, Debug)]
+enum Kind {
+    Plain,
+    /// `let x;`
+    Deferred { init: bool },
+    MutBorrow(Borrow),
+}
+
+#[derive(Clone, Debug)]
+struct Var {
+    name: String,
+    ty: Ty,
+    kind: Kind,
+}
+
+type Env = Vec<Var>;
+
+fn var(name: impl Into<String>, ty: Ty) -> Var {
+    Var { name: name.into(), ty, kind: Kind::Plain }
+}
 
 #[derive(Clone, Copy, PartialEq, Debug)]
 enum Mode {
     /// the block's end is the function's end: yields the function result
     Tail,
-    /// the block is a statement: yields the new `self`; `return` not allowed
+    /// the block is a statement: yields the new state (`self`, or a tuple of `self` and the locals it assigns); no early exit
     State,
     /// the block is a pure value (no field updates, no `return`)
     Value,
 }
 
 enum Chunk {
-    /// `let self := <expr>`; the expression's lines
-    LetSelf(Vec<String>),
+    /// `let <pattern> := <expr>`; the expression's lines
+    LetState(String, Vec<String>),
     Lines(Vec<String>),
+}
+
+/// what the translation of an expression puts in front of the statement it occurs in
+#[derive(Clone, Debug)]
+enum Pre {
+    /// `match opt with | none => <the function returns None> | some name => …rest of the block…`
+    Bind { name: String, opt: String, line: usize, why: String },
+    /// `let pat := rhs`
+    Let { pat: String, rhs: String, line: usize },
 }
 
 #[derive(Default)]
@@ -134,6 +255,25 @@ struct Notes {
     casts: Vec<String>,
     vecs: Vec<String>,
     eqs: Vec<String>,
+    unsafes: Vec<String>,
+    unions: Vec<String>,
+    cells: Vec<String>,
+    unwraps: Vec<String>,
+    unchecked: Vec<String>,
+    prims: Vec<String>,
+    generics: Vec<String>,
+    closures: Vec<String>,
+    wrapping: Vec<String>,
+    panics: Vec<String>,
+    dropped: Vec<String>,
+    renames: Vec<String>,
+    refs: Vec<String>,
+}
+
+fn note_once(v: &mut Vec<String>, s: String) {
+    if !v.contains(&s) {
+        v.push(s);
+    }
 }
 
 const LEAN_KEYWORDS: &[&str] = &[
@@ -156,24 +296,108 @@ fn indent(lines: Vec<String>) -> Vec<String> {
     lines.into_iter().map(|l| format!("  {l}")).collect()
 }
 
+#[derive(Clone, Copy, PartialEq, Debug)]
+enum DefKind {
+    Struct,
+    Union,
+}
+
+struct StructDef {
+    kind: DefKind,
+    fields: Vec<(String, Type)>,
+    line: usize,
+}
+
+/// the signature of a function translated earlier in the run
+#[derive(Clone, Debug)]
+struct Sig {
+    ty: String,
+    name: String,
+    has_self: bool,
+    self_mut: bool,
+    params: Vec<Ty>,
+    ret: Ty,
+    has_panic: bool,
+    lean: String,
+    /// type-class instances the definition asks for (tyvar names)
+    deceq: BTreeSet<String>,
+    inh: BTreeSet<String>,
+}
+
+/// a parsed `--prim`
+#[derive(Clone, Debug)]
+struct Prim {
+    ty: String,
+    name: String,
+    /// None = a constant
+    args: Option<Vec<String>>,
+    method: bool,
+    ret: String,
+    lean: String,
+    spec: String,
+}
+
 struct Tr<'a> {
     src_lines: Vec<&'a str>,
     file: &'a syn::File,
     opts: &'a Options,
     label: String,
-    fields: Vec<(String, Type)>,
+    defs: BTreeMap<String, StructDef>,
+    prims: Vec<Prim>,
+    sigs: Vec<Sig>,
     notes: Notes,
     // per function
+    cur_type: String,
     fn_name: String,
     has_self: bool,
     self_mut: bool,
+    has_panic: bool,
     ret: Ty,
+    closures: Vec<(String, Ty)>,
     deceq: BTreeSet<String>,
+    inh: BTreeSet<String>,
     match_depth: usize,
+    idents: BTreeSet<String>,
+    pre: Vec<Pre>,
+    no_hoist: usize,
+    last_borrow: Option<Borrow>,
+    effect_seen: bool,
+    /// (variable an effect of the current statement changes, how often the effectful call mentions it)
+    effect_info: Vec<(String, usize)>,
+    /// state variables of the enclosing `State` blocks (innermost last)
+    state: Vec<Vec<String>>,
+    deferred_tys: BTreeMap<String, Ty>,
+    /// some `if`/`match` statement returns a tuple of state variables (a component may go unused afterwards)
+    tuple_state: bool,
 }
 
 fn line_of(sp: Span) -> usize {
     sp.start().line
+}
+
+fn pat_of(vars: &[String]) -> String {
+    if vars.len() == 1 {
+        lean_ident(&vars[0])
+    } else {
+        format!("({})", vars.iter().map(|v| lean_ident(v)).collect::<Vec<_>>().join(", "))
+    }
+}
+
+/// does the identifier `name` occur in the Lean text `s`?
+fn text_mentions(s: &str, name: &str) -> bool {
+    let is_id = |c: char| c.is_alphanumeric() || c == '_' || c == '\'';
+    let mut from = 0;
+    while let Some(k) = s[from..].find(name) {
+        let a = from + k;
+        let b = a + name.len();
+        let before = s[..a].chars().next_back();
+        let after = s[b..].chars().next();
+        if !before.map(is_id).unwrap_or(false) && !after.map(is_id).unwrap_or(false) && before != Some('.') {
+            return true;
+        }
+        from = b;
+    }
+    false
 }
 
 impl<'a> Tr<'a> {
@@ -206,12 +430,102 @@ impl<'a> Tr<'a> {
         out.split_whitespace().collect::<Vec<_>>().join(" ")
     }
 
+    fn short_text(&self, sp: Span) -> String {
+        let t = self.src_text(sp);
+        if t.chars().count() > 90 {
+            format!("{}…", t.chars().take(90).collect::<String>())
+        } else {
+            t
+        }
+    }
+
+    fn fresh(&mut self, prefix: &str) -> String {
+        let mut n = 1;
+        loop {
+            let name = format!("{prefix}{n}");
+            if !self.idents.contains(&name) {
+                self.idents.insert(name.clone());
+                return name;
+            }
+            n += 1;
+        }
+    }
+
     // ---------------------------------------------------------------- types
+
+    fn self_lean(&self, rust: &str) -> String {
+        if rust == self.opts.impl_type {
+            if let Some(s) = &self.opts.self_type {
+                return s.clone();
+            }
+        }
+        match self.opts.type_map.iter().find(|(r, _)| r == rust) {
+            Some((_, l)) => l.clone(),
+            None => rust.to_string(),
+        }
+    }
+
+    fn named(&self, rust: &str) -> Option<Ty> {
+        if rust == self.opts.impl_type && self.opts.self_type.is_some() {
+            let lean = self.self_lean(rust);
+            return Some(Ty::Named { rust: rust.to_string(), lean, tyvar: false });
+        }
+        if let Some((_, lean)) = self.opts.type_map.iter().find(|(r, _)| r == rust) {
+            return Some(Ty::Named { rust: rust.to_string(), lean: lean.clone(), tyvar: self.opts.tyvars.contains(lean) });
+        }
+        if self.opts.structs.iter().any(|s| s == rust) || rust == self.opts.impl_type {
+            return Some(Ty::Named { rust: rust.to_string(), lean: rust.to_string(), tyvar: false });
+        }
+        None
+    }
+
+    fn fn_trait(&self, path: &syn::Path, sp: Span) -> Res<Option<Ty>> {
+        let seg = match path.segments.last() {
+            Some(s) => s,
+            None => return Ok(None),
+        };
+        if !matches!(seg.ident.to_string().as_str(), "FnOnce" | "FnMut" | "Fn") {
+            return Ok(None);
+        }
+        match &seg.arguments {
+            syn::PathArguments::Parenthesized(p) => {
+                let mut args = vec![];
+                for a in &p.inputs {
+                    args.push(self.ty(a)?);
+                }
+                let ret = match &p.output {
+                    ReturnType::Default => Ty::Unit,
+                    ReturnType::Type(_, t) => self.ty(t)?,
+                };
+                if args.is_empty() {
+                    return self.unsupported(sp, "closure type without arguments");
+                }
+                Ok(Some(Ty::Fn(args, Box::new(ret))))
+            }
+            _ => Ok(None),
+        }
+    }
 
     fn ty(&self, t: &Type) -> Res<Ty> {
         match t {
             Type::Paren(p) => self.ty(&p.elem),
+            Type::Group(p) => self.ty(&p.elem),
             Type::Tuple(t) if t.elems.is_empty() => Ok(Ty::Unit),
+            Type::Tuple(t) => {
+                let mut ts = vec![];
+                for e in &t.elems {
+                    ts.push(self.ty(e)?);
+                }
+                Ok(Ty::Tuple(ts))
+            }
+            Type::Reference(r) if r.mutability.is_none() => self.ty(&r.elem),
+            Type::ImplTrait(it) if it.bounds.len() == 1 => match &it.bounds[0] {
+                syn::TypeParamBound::Trait(tb) => match self.fn_trait(&tb.path, t.span())? {
+                    Some(f) => Ok(f),
+                    None => self.unsupported(t.span(), "type"),
+                },
+                _ => self.unsupported(t.span(), "type"),
+            },
             Type::Path(p) if p.qself.is_none() && p.path.segments.len() == 1 => {
                 let seg = &p.path.segments[0];
                 let name = seg.ident.to_string();
@@ -220,8 +534,8 @@ impl<'a> Tr<'a> {
                         let bits = match name.as_str() {
                             "u8" => 8,
                             "u16" => 16,
-                            "u32" => 32,
-                            "u64" | "usize" => 64,
+                            "u32" | "NonZeroU32" => 32,
+                            "u64" | "usize" | "NonZeroU64" => 64,
                             _ => 0,
                         };
                         if bits > 0 {
@@ -234,19 +548,51 @@ impl<'a> Tr<'a> {
                             return self.unsupported(t.span(), "type");
                         }
                         if name == "Self" {
-                            return self.unsupported(t.span(), "`Self` as a value type");
+                            if self.cur_type.is_empty() {
+                                return self.unsupported(t.span(), "`Self` as a value type");
+                            }
+                            let lean = self.self_lean(&self.cur_type);
+                            return Ok(Ty::Named { rust: self.cur_type.clone(), lean, tyvar: false });
                         }
-                        match self.opts.type_map.iter().find(|(r, _)| *r == name) {
-                            Some((_, lean)) => Ok(Ty::Named { rust: name, lean: lean.clone(), tyvar: self.opts.tyvars.contains(lean) }),
+                        if name == "PhantomData" {
+                            return Ok(Ty::Phantom);
+                        }
+                        if let Some((_, f)) = self.closures.iter().find(|(n, _)| *n == name) {
+                            return Ok(f.clone());
+                        }
+                        match self.named(&name) {
+                            Some(t) => Ok(t),
                             None => self.err(t.span(), format!("no Lean type given for the Rust type `{name}` (use --type {name}=<LeanType>)")),
                         }
                     }
-                    syn::PathArguments::AngleBracketed(ab) if ab.args.len() == 1 && (name == "Vec" || name == "Option") => {
-                        let inner = match &ab.args[0] {
-                            syn::GenericArgument::Type(t) => self.ty(t)?,
-                            _ => return self.unsupported(t.span(), "type argument"),
-                        };
-                        Ok(if name == "Vec" { Ty::Vec(Box::new(inner)) } else { Ty::Opt(Box::new(inner)) })
+                    syn::PathArguments::AngleBracketed(ab) => {
+                        if name == "PhantomData" {
+                            return Ok(Ty::Phantom);
+                        }
+                        if ab.args.len() == 1 && matches!(name.as_str(), "Vec" | "Option" | "ManuallyDrop") {
+                            let inner = match &ab.args[0] {
+                                syn::GenericArgument::Type(t) => self.ty(t)?,
+                                _ => return self.unsupported(t.span(), "type argument"),
+                            };
+                            return Ok(match name.as_str() {
+                                "Vec" => Ty::Vec(Box::new(inner)),
+                                "Option" => Ty::Opt(Box::new(inner)),
+                                _ => Ty::Cell(Box::new(inner)),
+                            });
+                        }
+                        // a generic struct of the file: the Lean type given for its name stands for every instance
+                        match self.named(&name) {
+                            Some(nt) => {
+                                for a in &ab.args {
+                                    if !matches!(a, syn::GenericArgument::Type(_)) {
+                                        return self.unsupported(t.span(), "type argument");
+                                    }
+                                }
+                                Ok(nt)
+                            }
+                            None if self.defs.contains_key(&name) => self.err(t.span(), format!("no Lean type given for the Rust type `{name}` (use --type {name}=<LeanType>)")),
+                            None => self.unsupported(t.span(), "type"),
+                        }
                     }
                     _ => self.unsupported(t.span(), "type"),
                 }
@@ -255,11 +601,67 @@ impl<'a> Tr<'a> {
         }
     }
 
-    fn field_ty(&self, name: &str, sp: Span) -> Res<Ty> {
-        match self.fields.iter().find(|(n, _)| n == name) {
-            Some((_, t)) => self.ty(t),
-            None => self.err(sp, format!("`{}` has no field `{name}`", self.opts.impl_type)),
+    fn lean_field(&self, key: &str, default: String) -> String {
+        match self.opts.field_map.iter().find(|(k, _)| k == key) {
+            Some((_, l)) => l.clone(),
+            None => default,
         }
+    }
+
+    /// the union a field type names, if any
+    fn union_of(&self, t: &Type) -> Option<String> {
+        if let Type::Path(p) = t {
+            if let Some(seg) = p.path.segments.last() {
+                let n = seg.ident.to_string();
+                if let Some(d) = self.defs.get(&n) {
+                    if d.kind == DefKind::Union {
+                        return Some(n);
+                    }
+                }
+            }
+        }
+        None
+    }
+
+    /// `base.f.g…` with `base : base_ty`
+    fn resolve_place(&mut self, base: &str, base_ty: &Ty, segs: &[String], sp: Span) -> Res<PlaceInfo> {
+        let mut cur = base_ty.clone();
+        let mut lean_path = vec![];
+        let mut i = 0;
+        while i < segs.len() {
+            let rust = match &cur {
+                Ty::Named { rust, .. } => rust.clone(),
+                _ => return self.unsupported(sp, "field access on a value that is not a struct of this file;"),
+            };
+            let f = &segs[i];
+            let fty = match self.defs.get(&rust) {
+                Some(d) if d.kind == DefKind::Struct => match d.fields.iter().find(|(n, _)| n == f) {
+                    Some((_, t)) => t.clone(),
+                    None => return self.err(sp, format!("`{rust}` has no field `{f}`")),
+                },
+                _ => return self.err(sp, format!("outside the supported subset: field access on `{rust}`, which is not a struct with named fields defined in this file")),
+            };
+            if let Some(u) = self.union_of(&fty) {
+                let m = match segs.get(i + 1) {
+                    Some(m) => m,
+                    None => return self.unsupported(sp, "a union as a whole (only its members)"),
+                };
+                let mty = match self.defs[&u].fields.iter().find(|(n, _)| n == m) {
+                    Some((_, t)) => t.clone(),
+                    None => return self.err(sp, format!("union `{u}` has no member `{m}`")),
+                };
+                let lf = self.lean_field(&format!("{rust}.{f}.{m}"), format!("{f}_{m}"));
+                note!(self, unions, format!("line {}: `{}` (member `{m}` of the union `{u}`)", line_of(sp), self.src_text(sp)));
+                lean_path.push(lf);
+                cur = self.ty(&mty)?;
+                i += 2;
+            } else {
+                lean_path.push(self.lean_field(&format!("{rust}.{f}"), f.clone()));
+                cur = self.ty(&fty)?;
+                i += 1;
+            }
+        }
+        Ok(PlaceInfo { base: base.to_string(), lean_path, ty: cur })
     }
 
     /// the variants of a fieldless enum defined in the same file
@@ -291,811 +693,90 @@ impl<'a> Tr<'a> {
         format!(".{}", lean_ident(&format!("{first}{}", c.as_str())))
     }
 
-    // ---------------------------------------------------------------- expressions
+    // ---------------------------------------------------------------- results
 
-    /// `self.f` → Some(f)
-    fn self_field(&self, e: &Expr) -> Option<String> {
-        if let Expr::Field(f) = e {
-            if let (Expr::Path(p), syn::Member::Named(id)) = (&*f.base, &f.member) {
-                if p.path.is_ident("self") && p.qself.is_none() {
-                    return Some(id.to_string());
-                }
-            }
-        }
-        None
-    }
-
-    fn expr(&mut self, e: &Expr, env: &Env) -> Res<(L, Ty)> {
-        match e {
-            Expr::Paren(p) => self.expr(&p.expr, env),
-            Expr::Lit(l) => match &l.lit {
-                Lit::Int(i) => {
-                    let bits = match i.suffix() {
-                        "" => 0,
-                        "u8" => 8,
-                        "u16" => 16,
-                        "u32" => 32,
-                        "u64" | "usize" => 64,
-                        _ => return self.unsupported(e.span(), "integer literal"),
-                    };
-                    let v: u128 = i.base10_parse().map_err(|_| Error(format!("{}:{}: bad integer literal", self.label, line_of(e.span()))))?;
-                    Ok((L::atom(v.to_string()), Ty::Int(bits, i.suffix().to_string())))
-                }
-                Lit::Bool(b) => Ok((L::atom(if b.value { "true" } else { "false" }), Ty::Bool)),
-                _ => self.unsupported(e.span(), "literal"),
-            },
-            Expr::Path(p) if p.qself.is_none() && p.path.segments.len() == 1 && p.path.segments[0].arguments.is_none() => {
-                let name = p.path.segments[0].ident.to_string();
-                if name == "self" {
-                    return self.unsupported(e.span(), "`self` as a value");
-                }
-                if name == "None" {
-                    // the element type is fixed by the context on the Lean side
-                    return Ok((L::atom("none"), Ty::Opt(Box::new(Ty::Unit))));
-                }
-                match env.iter().rev().find(|(n, _)| *n == name) {
-                    Some((_, t)) => Ok((L::atom(lean_ident(&name)), t.clone())),
-                    None => self.unsupported(e.span(), "name that is neither a local nor an argument"),
-                }
-            }
-            Expr::Field(_) => match self.self_field(e) {
-                Some(f) => {
-                    if !self.has_self {
-                        return self.unsupported(e.span(), "field access without a self parameter");
-                    }
-                    let t = self.field_ty(&f, e.span())?;
-                    Ok((L::atom(format!("self.{}", lean_ident(&f))), t))
-                }
-                None => self.unsupported(e.span(), "field access (only `self.f`)"),
-            },
-            Expr::Cast(c) => {
-                let (l, from) = self.expr(&c.expr, env)?;
-                let to = self.ty(&c.ty)?;
-                match (&from, &to) {
-                    (Ty::Int(fb, fname), Ty::Int(tb, tname)) => {
-                        if *fb != 0 && tb < fb {
-                            self.notes.casts.push(format!(
-                                "line {}: `{}` ({} → {}) is the identity here; in Rust it truncates values ≥ 2^{}",
-                                line_of(e.span()),
-                                self.src_text(e.span()),
-                                fname,
-                                tname,
-                                tb
-                            ));
-                        }
-                        Ok((l, to))
-                    }
-                    _ => self.unsupported(e.span(), "cast (only between unsigned integer types)"),
-                }
-            }
-            Expr::Unary(u) => match u.op {
-                UnOp::Not(_) => {
-                    let (l, t) = self.expr(&u.expr, env)?;
-                    if t != Ty::Bool {
-                        return self.unsupported(e.span(), "`!` on a non-bool");
-                    }
-                    Ok((L::comp(format!("!{}", l.arg())), Ty::Bool))
-                }
-                _ => self.unsupported(e.span(), "unary operator"),
-            },
-            Expr::Binary(b) => {
-                match b.op {
-                    BinOp::Add(_) | BinOp::Sub(_) => {
-                        let (l, lt) = self.expr(&b.left, env)?;
-                        let (r, rt) = self.expr(&b.right, env)?;
-                        let t = match (&lt, &rt) {
-                            (Ty::Int(0, _), Ty::Int(..)) => rt.clone(),
-                            (Ty::Int(..), Ty::Int(..)) => lt.clone(),
-                            _ => return self.unsupported(e.span(), "arithmetic on non-integers"),
-                        };
-                        let op = if matches!(b.op, BinOp::Add(_)) { "+" } else { "-" };
-                        self.notes.arith.push(format!("line {}: `{}`", line_of(e.span()), self.src_text(e.span())));
-                        Ok((L::comp(format!("{} {op} {}", l.arg(), r.arg())), t))
-                    }
-                    BinOp::Lt(_) | BinOp::Le(_) | BinOp::Gt(_) | BinOp::Ge(_) | BinOp::Eq(_) | BinOp::Ne(_) => {
-                        let p = self.cond(e, env)?;
-                        Ok((L::comp(format!("decide ({p})")), Ty::Bool))
-                    }
-                    BinOp::And(_) | BinOp::Or(_) => {
-                        let (l, lt) = self.expr(&b.left, env)?;
-                        let (r, rt) = self.expr(&b.right, env)?;
-                        if lt != Ty::Bool || rt != Ty::Bool {
-                            return self.unsupported(e.span(), "`&&`/`||` on non-bools");
-                        }
-                        let op = if matches!(b.op, BinOp::And(_)) { "&&" } else { "||" };
-                        Ok((L::comp(format!("{} {op} {}", l.arg(), r.arg())), Ty::Bool))
-                    }
-                    _ => self.unsupported(e.span(), "binary operator"),
-                }
-            }
-            Expr::Call(c) => {
-                // Some(e)
-                if let Expr::Path(p) = &*c.func {
-                    if p.path.is_ident("Some") && c.args.len() == 1 {
-                        let (l, t) = self.expr(&c.args[0], env)?;
-                        return Ok((L::comp(format!("some {}", l.arg())), Ty::Opt(Box::new(t))));
-                    }
-                }
-                self.unsupported(e.span(), "function call")
-            }
-            Expr::MethodCall(m) => self.method_value(m, env),
-            Expr::If(_) | Expr::Match(_) => self.unsupported(e.span(), "`if`/`match` as an operand (allowed as a statement or as the result of a block)"),
-            Expr::Return(_) => self.unsupported(e.span(), "`return` inside an expression"),
-            _ => self.unsupported(e.span(), "expression"),
-        }
-    }
-
-    /// a method call used for its value: `self.f.len()`, `self.f.iter().position(|&p| p == x)`
-    fn method_value(&mut self, m: &syn::ExprMethodCall, env: &Env) -> Res<(L, Ty)> {
-        let sp = m.span();
-        if m.turbofish.is_some() {
-            return self.unsupported(sp, "turbofish");
-        }
-        let name = m.method.to_string();
-        // self.f.len()
-        if let Some(f) = self.self_field(&m.receiver) {
-            let ft = self.field_ty(&f, sp)?;
-            if let Ty::Vec(_) = ft {
-                if name == "len" && m.args.is_empty() {
-                    return Ok((L::comp(format!("vecLen self.{}", lean_ident(&f))), Ty::Int(64, "usize".into())));
-                }
-            }
-            return self.unsupported(sp, "method call used as a value");
-        }
-        // self.f.iter().position(|&p| p == x)
-        if name == "position" && m.args.len() == 1 {
-            if let Expr::MethodCall(inner) = &*m.receiver {
-                if inner.method == "iter" && inner.args.is_empty() && inner.turbofish.is_none() {
-                    if let Some(f) = self.self_field(&inner.receiver) {
-                        let ft = self.field_ty(&f, sp)?;
-                        let elem = match ft {
-                            Ty::Vec(t) => *t,
-                            _ => return self.unsupported(sp, "`iter().position` on a field that is not a Vec"),
-                        };
-                        let needle = self.position_needle(&m.args[0], env)?;
-                        let (nl, nt) = self.expr(needle, env)?;
-                        if nt != elem {
-                            return self.err(sp, "the value searched for does not have the Vec's element type");
-                        }
-                        self.note_eq(&elem, sp);
-                        return Ok((L::comp(format!("vecPosition self.{} {}", lean_ident(&f), nl.arg())), Ty::Opt(Box::new(Ty::Int(64, "usize".into())))));
-                    }
-                }
-            }
-        }
-        self.unsupported(sp, "method call used as a value")
-    }
-
-    /// the closure must be `|&p| p == x`, `|&p| x == p`, `|p| *p == x` or `|p| x == *p` with `x` not mentioning `p`
-    fn position_needle<'e>(&self, clos: &'e Expr, _env: &Env) -> Res<&'e Expr> {
-        let c = match clos {
-            Expr::Closure(c) => c,
-            _ => return self.unsupported(clos.span(), "argument of `position` (only a closure `|&p| p == x`)"),
+    /// the function's result for the value `v` (None: a unit function)
+    fn result(&self, v: Option<&str>) -> String {
+        let base = match (self.self_mut, v) {
+            (true, Some(v)) => format!("(self, {v})"),
+            (true, None) => "self".to_string(),
+            (false, Some(v)) => v.to_string(),
+            (false, None) => "()".to_string(),
         };
-        if c.inputs.len() != 1 || c.capture.is_some() || c.asyncness.is_some() || !matches!(c.output, ReturnType::Default) {
-            return self.unsupported(clos.span(), "closure (only `|&p| p == x`)");
-        }
-        let (pname, by_ref) = match &c.inputs[0] {
-            Pat::Reference(r) if r.mutability.is_none() => match &*r.pat {
-                Pat::Ident(i) if i.by_ref.is_none() && i.mutability.is_none() && i.subpat.is_none() => (i.ident.to_string(), false),
-                _ => return self.unsupported(clos.span(), "closure parameter"),
-            },
-            Pat::Ident(i) if i.by_ref.is_none() && i.mutability.is_none() && i.subpat.is_none() => (i.ident.to_string(), true),
-            _ => return self.unsupported(clos.span(), "closure parameter"),
-        };
-        let b = match &*c.body {
-            Expr::Binary(b) if matches!(b.op, BinOp::Eq(_)) => b,
-            _ => return self.unsupported(clos.span(), "closure body (only `p == x`)"),
-        };
-        let is_param = |e: &Expr| -> bool {
-            let e = if by_ref {
-                match e {
-                    Expr::Unary(u) if matches!(u.op, UnOp::Deref(_)) => &*u.expr,
-                    _ => return false,
-                }
+        if self.has_panic {
+            if base.contains(' ') && !base.starts_with('(') {
+                format!(".ok ({base})")
             } else {
-                e
-            };
-            matches!(e, Expr::Path(p) if p.path.is_ident(&pname))
-        };
-        let needle = if is_param(&b.left) {
-            &*b.right
-        } else if is_param(&b.right) {
-            &*b.left
+                format!(".ok {base}")
+            }
         } else {
-            return self.unsupported(clos.span(), "closure body (only `p == x`)");
-        };
-        if mentions(needle, &pname) {
-            return self.unsupported(clos.span(), "closure body (the value compared with must not mention the parameter)");
-        }
-        Ok(needle)
-    }
-
-    fn note_eq(&mut self, t: &Ty, sp: Span) {
-        if let Ty::Named { rust, lean, tyvar } = t {
-            if *tyvar {
-                self.deceq.insert(lean.clone());
-            }
-            let n = format!("`==` on `{rust}` (its `PartialEq` impl) is equality of `{lean}`");
-            if !self.notes.eqs.contains(&n) {
-                self.notes.eqs.push(n);
-            }
-        }
-        let _ = sp;
-    }
-
-    /// a bool expression as a Lean proposition (for `if`)
-    fn cond(&mut self, e: &Expr, env: &Env) -> Res<String> {
-        match e {
-            Expr::Paren(p) => self.cond(&p.expr, env),
-            Expr::Binary(b) => match b.op {
-                BinOp::Lt(_) | BinOp::Le(_) | BinOp::Gt(_) | BinOp::Ge(_) | BinOp::Eq(_) | BinOp::Ne(_) => {
-                    let (l, lt) = self.expr(&b.left, env)?;
-                    let (r, rt) = self.expr(&b.right, env)?;
-                    let ordered = !matches!(b.op, BinOp::Eq(_) | BinOp::Ne(_));
-                    match (&lt, &rt) {
-                        (Ty::Int(..), Ty::Int(..)) => {}
-                        (Ty::Bool, Ty::Bool) if !ordered => {}
-                        (Ty::Named { .. }, Ty::Named { .. }) if !ordered && lt == rt => self.note_eq(&lt, e.span()),
-                        _ => return self.unsupported(e.span(), "comparison (integers; `==`/`!=` also on bools and on named types)"),
-                    }
-                    let op = match b.op {
-                        BinOp::Lt(_) => "<",
-                        BinOp::Le(_) => "≤",
-                        BinOp::Gt(_) => ">",
-                        BinOp::Ge(_) => "≥",
-                        BinOp::Eq(_) => "=",
-                        _ => "≠",
-                    };
-                    Ok(format!("{} {op} {}", l.arg(), r.arg()))
-                }
-                BinOp::And(_) | BinOp::Or(_) => {
-                    let l = self.cond(&b.left, env)?;
-                    let r = self.cond(&b.right, env)?;
-                    let op = if matches!(b.op, BinOp::And(_)) { "∧" } else { "∨" };
-                    Ok(format!("({l}) {op} ({r})"))
-                }
-                _ => self.unsupported(e.span(), "condition"),
-            },
-            Expr::Unary(u) if matches!(u.op, UnOp::Not(_)) => {
-                let c = self.cond(&u.expr, env)?;
-                Ok(format!("¬ ({c})"))
-            }
-            _ => {
-                let (l, t) = self.expr(e, env)?;
-                if t != Ty::Bool {
-                    return self.unsupported(e.span(), "condition that is not a bool");
-                }
-                Ok(format!("{} = true", l.arg()))
-            }
+            base
         }
     }
 
-    // ---------------------------------------------------------------- statements
-
-    /// a statement that updates one field: the Lean term of the new `self`
-    fn effect(&mut self, e: &Expr, env: &Env) -> Res<String> {
-        let sp = e.span();
-        let need_mut = |this: &Self| -> Res<()> {
-            if !this.self_mut {
-                return this.unsupported(sp, "field update in a method that does not take `&mut self`");
-            }
-            Ok(())
-        };
-        match e {
-            Expr::Assign(a) => {
-                let f = match self.self_field(&a.left) {
-                    Some(f) => f,
-                    None => return self.unsupported(sp, "assignment (only to `self.f`)"),
-                };
-                need_mut(self)?;
-                let ft = self.field_ty(&f, sp)?;
-                let (r, rt) = self.expr(&a.right, env)?;
-                if !assignable(&ft, &rt) {
-                    return self.err(sp, format!("type of the assigned value does not match the field `{f}`"));
-                }
-                Ok(format!("{{ self with {} := {} }}", lean_ident(&f), r.s))
-            }
-            Expr::Binary(b) if matches!(b.op, BinOp::AddAssign(_) | BinOp::SubAssign(_)) => {
-                let f = match self.self_field(&b.left) {
-                    Some(f) => f,
-                    None => return self.unsupported(sp, "compound assignment (only to `self.f`)"),
-                };
-                need_mut(self)?;
-                let ft = self.field_ty(&f, sp)?;
-                let (r, rt) = self.expr(&b.right, env)?;
-                if !matches!((&ft, &rt), (Ty::Int(..), Ty::Int(..))) {
-                    return self.unsupported(sp, "compound assignment on a non-integer field");
-                }
-                let op = if matches!(b.op, BinOp::AddAssign(_)) { "+" } else { "-" };
-                self.notes.arith.push(format!("line {}: `{}`", line_of(sp), self.src_text(sp)));
-                let f = lean_ident(&f);
-                Ok(format!("{{ self with {f} := self.{f} {op} {} }}", r.arg()))
-            }
-            Expr::MethodCall(m) => {
-                let f = match self.self_field(&m.receiver) {
-                    Some(f) => f,
-                    None => return self.unsupported(sp, "method call as a statement (only on a Vec field `self.f`)"),
-                };
-                if m.turbofish.is_some() {
-                    return self.unsupported(sp, "turbofish");
-                }
-                let elem = match self.field_ty(&f, sp)? {
-                    Ty::Vec(t) => *t,
-                    _ => return self.unsupported(sp, "method call on a field that is not a Vec"),
-                };
-                need_mut(self)?;
-                let name = m.method.to_string();
-                let args: Vec<&Expr> = m.args.iter().collect();
-                let lf = lean_ident(&f);
-                let is_index = |t: &Ty| matches!(t, Ty::Int(64, _) | Ty::Int(0, _));
-                match (name.as_str(), args.len()) {
-                    ("insert", 2) => {
-                        let (i, it) = self.expr(args[0], env)?;
-                        let (x, xt) = self.expr(args[1], env)?;
-                        if !is_index(&it) || !assignable(&elem, &xt) {
-                            return self.err(sp, "argument types of `Vec::insert`");
-                        }
-                        self.notes.vecs.push(format!("line {}: `{}` panics in Rust when the index is > len; `vecInsert` is total", line_of(sp), self.src_text(sp)));
-                        Ok(format!("{{ self with {lf} := vecInsert self.{lf} {} {} }}", i.arg(), x.arg()))
-                    }
-                    ("push", 1) => {
-                        let (x, xt) = self.expr(args[0], env)?;
-                        if !assignable(&elem, &xt) {
-                            return self.err(sp, "argument type of `Vec::push`");
-                        }
-                        Ok(format!("{{ self with {lf} := vecPush self.{lf} {} }}", x.arg()))
-                    }
-                    ("remove", 1) => {
-                        let (i, it) = self.expr(args[0], env)?;
-                        if !is_index(&it) {
-                            return self.err(sp, "argument type of `Vec::remove`");
-                        }
-                        self.notes.vecs.push(format!("line {}: `{}` panics in Rust when the index is ≥ len; `vecRemove` is total (the removed element is dropped)", line_of(sp), self.src_text(sp)));
-                        Ok(format!("{{ self with {lf} := vecRemove self.{lf} {} }}", i.arg()))
-                    }
-                    _ => self.unsupported(sp, "Vec method as a statement (only insert, push, remove)"),
-                }
-            }
-            _ => self.unsupported(sp, "statement"),
-        }
+    fn take_pre(&mut self) -> Vec<Pre> {
+        std::mem::take(&mut self.pre)
     }
 
-    fn wants_value(&self, mode: Mode) -> bool {
-        match mode {
-            Mode::Value => true,
-            Mode::Tail => self.ret != Ty::Unit,
-            Mode::State => false,
+    fn push_pre(&mut self, p: Pre, sp: Span) -> Res<()> {
+        if self.no_hoist > 0 {
+            return self.unsupported(sp, "early exit or effect inside a conditionally evaluated operand:");
         }
-    }
-
-    /// the end of a block: its value
-    fn finish(&mut self, mut out: Vec<Chunk>, value: Option<&Expr>, env: &Env, mode: Mode, sp: Span) -> Res<Vec<String>> {
-        let want = self.wants_value(mode);
-        let v = match (want, value) {
-            (true, Some(e)) => {
-                let (l, t) = self.expr(e, env)?;
-                if mode == Mode::Tail && !assignable(&self.ret, &t) {
-                    return self.err(e.span(), "type of the returned value does not match the return type");
-                }
-                Some(l)
+        if let Pre::Bind { .. } = p {
+            if self.effect_seen {
+                return self.unsupported(sp, "early exit after an effect in the same statement:");
             }
-            (true, None) => return self.err(sp, "the block ends without a value"),
-            (false, Some(e)) => return self.unsupported(e.span(), "value where none is expected"),
-            (false, None) => None,
-        };
-        let ln = value.map(|e| format!("  -- L{}", line_of(e.span()))).unwrap_or_default();
-        match (mode, v) {
-            (Mode::Value, Some(l)) => out.push(Chunk::Lines(vec![format!("{}{ln}", l.s)])),
-            (Mode::Tail, Some(l)) if self.self_mut => out.push(Chunk::Lines(vec![format!("(self, {}){ln}", l.s)])),
-            (Mode::Tail, Some(l)) => out.push(Chunk::Lines(vec![format!("{}{ln}", l.s)])),
-            _ => {
-                // the new `self` is the value: `let self := X; self` is written `X`
-                if let Some(Chunk::LetSelf(_)) = out.last() {
-                    if let Some(Chunk::LetSelf(lines)) = out.pop() {
-                        out.push(Chunk::Lines(lines));
-                    }
-                } else {
-                    out.push(Chunk::Lines(vec!["self".to_string()]));
-                }
+            if !matches!(self.ret, Ty::Opt(_)) {
+                return self.unsupported(sp, "early exit to `None` in a function that does not return an `Option`:");
             }
         }
-        Ok(flatten(out))
+        self.pre.push(p);
+        Ok(())
     }
 
-    fn block(&mut self, stmts: &[Stmt], env: &Env, mode: Mode, sp: Span) -> Res<Vec<String>> {
-        let mut env = env.clone();
-        let mut out: Vec<Chunk> = vec![];
-        let n = stmts.len();
-        for (i, st) in stmts.iter().enumerate() {
-            let last = i + 1 == n;
-            match st {
-                Stmt::Local(l) => {
-                    if !l.attrs.is_empty() {
-                        return self.unsupported(l.span(), "attribute on a `let`");
-                    }
-                    let (name, declared) = match &l.pat {
-                        Pat::Ident(p) if p.by_ref.is_none() && p.mutability.is_none() && p.subpat.is_none() => (p.ident.to_string(), None),
-                        Pat::Type(pt) => match &*pt.pat {
-                            Pat::Ident(p) if p.by_ref.is_none() && p.mutability.is_none() && p.subpat.is_none() => (p.ident.to_string(), Some(self.ty(&pt.ty)?)),
-                            _ => return self.unsupported(l.span(), "`let` pattern (only `let x = e;`, no `mut`)"),
-                        },
-                        _ => return self.unsupported(l.span(), "`let` pattern (only `let x = e;`, no `mut`)"),
-                    };
-                    let init = match &l.init {
-                        Some(i) if i.diverge.is_none() => &i.expr,
-                        _ => return self.unsupported(l.span(), "`let` without initialiser or with `else`"),
-                    };
-                    let (v, t) = self.expr(init, &env)?;
-                    let t = match declared {
-                        Some(d) => {
-                            if !assignable(&d, &t) {
-                                return self.err(l.span(), "declared type of the `let` does not match its initialiser");
-                            }
-                            d
-                        }
-                        None => t,
-                    };
-                    out.push(Chunk::Lines(vec![format!("let {} := {}  -- L{}", lean_ident(&name), v.s, line_of(l.span()))]));
-                    env.push((name, t));
-                }
-                Stmt::Macro(m) => {
-                    let name = m.mac.path.segments.last().map(|s| s.ident.to_string()).unwrap_or_default();
-                    if m.mac.path.segments.len() == 1 && (name == "assert" || name == "debug_assert") {
-                        let txt = self.src_text(m.mac.span());
-                        out.push(Chunk::Lines(vec![format!("-- L{}: skipped `{}`", line_of(m.span()), txt)]));
-                        self.notes.asserts.push(format!("line {}: `{}`{}", line_of(m.span()), txt, if name == "debug_assert" { " (debug builds only)" } else { "" }));
-                    } else {
-                        return self.unsupported(m.span(), "macro (only assert!/debug_assert!)");
-                    }
-                }
-                Stmt::Item(it) => return self.unsupported(it.span(), "item inside a function"),
-                Stmt::Expr(e, semi) => {
-                    if let Expr::Return(r) = e {
-                        if !last {
-                            return self.unsupported(stmts[i + 1].span(), "statement after `return`");
-                        }
-                        if mode != Mode::Tail {
-                            return self.unsupported(e.span(), "`return` here");
-                        }
-                        return self.finish(out, r.expr.as_deref(), &env, mode, e.span());
-                    }
-                    let control = matches!(e, Expr::If(_) | Expr::Match(_));
-                    if last && semi.is_none() && self.wants_value(mode) {
-                        if control {
-                            let lines = self.control(e, &env, mode, &[])?;
-                            out.push(Chunk::Lines(lines));
-                            return Ok(flatten(out));
-                        }
-                        return self.finish(out, Some(e), &env, mode, e.span());
-                    }
-                    if control {
-                        if expr_contains_return(e) {
-                            if mode != Mode::Tail {
-                                return self.unsupported(e.span(), "`return` inside a nested statement block");
-                            }
-                            let lines = self.control(e, &env, Mode::Tail, &stmts[i + 1..])?;
-                            out.push(Chunk::Lines(lines));
-                            return Ok(flatten(out));
-                        }
-                        if mode == Mode::Value || !self.self_mut {
-                            return self.unsupported(e.span(), "`if`/`match` statement that can have no effect here");
-                        }
-                        let lines = self.control(e, &env, Mode::State, &[])?;
-                        out.push(Chunk::LetSelf(lines));
-                    } else {
-                        if mode == Mode::Value {
-                            return self.unsupported(e.span(), "statement inside a value block");
-                        }
-                        let rhs = self.effect(e, &env)?;
-                        out.push(Chunk::LetSelf(vec![format!("{rhs}  -- L{}", line_of(e.span()))]));
-                    }
+    fn binds_in(pre: &[Pre]) -> usize {
+        pre.iter().filter(|p| matches!(p, Pre::Bind { .. })).count()
+    }
+
+    /// `inner` (translated with `match_depth` raised by the number of binds in `pre`) behind the lets and binds of `pre`
+    fn wrap(&mut self, pre: Vec<Pre>, inner: Vec<String>) -> Vec<String> {
+        let nb = Self::binds_in(&pre);
+        let mut k = nb;
+        let mut lines = inner;
+        let exit = self.result(Some("none"));
+        for p in pre.into_iter().rev() {
+            match p {
+                Pre::Let { pat, rhs, line } => lines.insert(0, format!("let {pat} := {rhs}  -- L{line}")),
+                Pre::Bind { name, opt, line, why } => {
+                    k -= 1;
+                    let mut m = vec![format!("match {opt} with  -- L{line}: {why}"), format!("| none => {exit}"), format!("| some {} =>", lean_ident(&name))];
+                    m.extend(indent(lines));
+                    lines = if self.match_depth + k > 0 { paren_lines(m) } else { m };
                 }
             }
-        }
-        self.finish(out, None, &env, mode, sp)
-    }
-
-    /// one branch of an `if`/`match`; `rest` = the statements after the `if`/`match` (only when it contains a `return`)
-    fn branch(&mut self, stmts: &[Stmt], env: &Env, mode: Mode, rest: &[Stmt], sp: Span) -> Res<Vec<String>> {
-        if rest.is_empty() {
-            return self.block(stmts, env, mode, sp);
-        }
-        // `mode == Tail`, and a `return` occurs in some branch of this `if`/`match`
-        if definitely_returns(stmts) {
-            return self.block(stmts, env, Mode::Tail, sp);
-        }
-        if stmts_contain_return(stmts) {
-            return self.err(sp, "outside the supported subset: a branch that returns on some paths only (a branch must either always `return` or never)");
-        }
-        // the branch falls through into `rest`; its locals go out of scope
-        let st = self.block(stmts, env, Mode::State, sp)?;
-        let mut out = vec![];
-        if self.self_mut && st != vec!["self".to_string()] {
-            out.push(Chunk::LetSelf(st));
-        }
-        let mut lines = flatten(out);
-        lines.extend(self.block(rest, env, Mode::Tail, sp)?);
-        Ok(lines)
-    }
-
-    fn control(&mut self, e: &Expr, env: &Env, mode: Mode, rest: &[Stmt]) -> Res<Vec<String>> {
-        match e {
-            Expr::If(i) => {
-                if !i.attrs.is_empty() {
-                    return self.unsupported(e.span(), "attribute");
-                }
-                let else_stmts: Option<Vec<Stmt>>;
-                let mut else_if: Option<&Expr> = None;
-                match &i.else_branch {
-                    None => else_stmts = Some(vec![]),
-                    Some((_, eb)) => match &**eb {
-                        Expr::Block(b) if b.label.is_none() && b.attrs.is_empty() => else_stmts = Some(b.block.stmts.clone()),
-                        Expr::If(_) => {
-                            else_if = Some(&**eb);
-                            else_stmts = None;
-                        }
-                        _ => return self.unsupported(eb.span(), "else branch"),
-                    },
-                }
-                if let Expr::Let(l) = &*i.cond {
-                    // if let Some(x) = e { A } else { B }
-                    let bound = match &*l.pat {
-                        Pat::TupleStruct(ts) if ts.path.is_ident("Some") && ts.qself.is_none() && ts.elems.len() == 1 => match &ts.elems[0] {
-                            Pat::Ident(p) if p.by_ref.is_none() && p.mutability.is_none() && p.subpat.is_none() => p.ident.to_string(),
-                            _ => return self.unsupported(l.span(), "`if let` pattern (only `Some(x)`)"),
-                        },
-                        _ => return self.unsupported(l.span(), "`if let` pattern (only `Some(x)`)"),
-                    };
-                    let (s, st) = self.expr(&l.expr, env)?;
-                    let inner = match st {
-                        Ty::Opt(t) => *t,
-                        _ => return self.unsupported(l.span(), "`if let Some(..)` on a value that is not an Option"),
-                    };
-                    let else_stmts = match (else_stmts, else_if) {
-                        (Some(s), _) => s,
-                        (None, Some(ei)) => vec![Stmt::Expr(ei.clone(), None)],
-                        _ => vec![],
-                    };
-                    let mut env2 = env.clone();
-                    env2.push((bound.clone(), inner));
-                    self.match_depth += 1;
-                    let a = self.branch(&i.then_branch.stmts, &env2, mode, rest, i.then_branch.span());
-                    let b = self.branch(&else_stmts, env, mode, rest, e.span());
-                    self.match_depth -= 1;
-                    let (a, b) = (a?, b?);
-                    let mut lines = vec![format!("match {} with  -- L{}: if let Some({}) = …", s.s, line_of(e.span()), bound)];
-                    lines.push(format!("| some {} =>", lean_ident(&bound)));
-                    lines.extend(indent(a));
-                    lines.push(format!("| none =>  -- else"));
-                    lines.extend(indent(b));
-                    return Ok(self.paren_match(lines));
-                }
-                let c = self.cond(&i.cond, env)?;
-                let a = self.branch(&i.then_branch.stmts, env, mode, rest, i.then_branch.span())?;
-                let mut lines = vec![format!("if {c} then  -- L{}", line_of(e.span()))];
-                lines.extend(indent(a));
-                match (else_stmts, else_if) {
-                    (Some(s), _) => {
-                        let b = self.branch(&s, env, mode, rest, e.span())?;
-                        if b.len() == 1 && !b[0].contains("--") {
-                            lines.push(format!("else {}", b[0]));
-                        } else {
-                            lines.push("else".to_string());
-                            lines.extend(indent(b));
-                        }
-                    }
-                    (None, Some(ei)) => {
-                        // else if …: `if a {A} else if b {B} else {C}; rest` = `if a {A; rest} else { if b {B; rest} else {C; rest} }`
-                        let b = self.control(ei, env, mode, rest)?;
-                        if b.first().map(|l| l.starts_with("if ")).unwrap_or(false) {
-                            lines.push(format!("else {}", b[0]));
-                            lines.extend(b.into_iter().skip(1));
-                        } else {
-                            lines.push("else".to_string());
-                            lines.extend(indent(b));
-                        }
-                    }
-                    _ => unreachable!(),
-                }
-                Ok(lines)
-            }
-            Expr::Match(m) => {
-                if !m.attrs.is_empty() {
-                    return self.unsupported(e.span(), "attribute");
-                }
-                let (s, st) = self.expr(&m.expr, env)?;
-                // (Lean pattern, bound variable with type, body)
-                let mut arms: Vec<(String, Option<(String, Ty)>, &Expr)> = vec![];
-                match &st {
-                    Ty::Named { rust, .. } => {
-                        let variants = match self.enum_variants(rust) {
-                            Some(Ok(v)) => v,
-                            Some(Err(why)) => return self.unsupported(e.span(), format!("`match` on an enum with fields ({why});")),
-                            None => return self.err(e.span(), format!("outside the supported subset: `match` on `{rust}`, which is not an enum defined in this file")),
-                        };
-                        let mut seen: Vec<String> = vec![];
-                        for arm in &m.arms {
-                            if arm.guard.is_some() || !arm.attrs.is_empty() {
-                                return self.unsupported(arm.span(), "match arm with a guard or an attribute");
-                            }
-                            let pats: Vec<&Pat> = match &arm.pat {
-                                Pat::Or(o) => o.cases.iter().collect(),
-                                p => vec![p],
-                            };
-                            let mut lean_pats = vec![];
-                            for p in pats {
-                                let v = match p {
-                                    Pat::Path(pp) if pp.qself.is_none() && pp.path.segments.len() == 2 && (pp.path.segments[0].ident == rust.as_str() || pp.path.segments[0].ident == "Self") => {
-                                        pp.path.segments[1].ident.to_string()
-                                    }
-                                    _ => return self.unsupported(p.span(), format!("match pattern (only `{rust}::Variant`, one arm per variant, no `_`)")),
-                                };
-                                if !variants.contains(&v) {
-                                    return self.err(p.span(), format!("`{rust}` has no variant `{v}`"));
-                                }
-                                if seen.contains(&v) {
-                                    return self.err(p.span(), format!("variant `{v}` matched twice"));
-                                }
-                                seen.push(v.clone());
-                                lean_pats.push(self.lean_variant(rust, &v));
-                            }
-                            arms.push((lean_pats.join(" | "), None, &arm.body));
-                        }
-                        for v in &variants {
-                            if !seen.contains(v) {
-                                return self.err(e.span(), format!("outside the supported subset: `match` without an arm for `{rust}::{v}`"));
-                            }
-                        }
-                    }
-                    Ty::Opt(inner) => {
-                        let mut some = false;
-                        let mut none = false;
-                        for arm in &m.arms {
-                            if arm.guard.is_some() || !arm.attrs.is_empty() {
-                                return self.unsupported(arm.span(), "match arm with a guard or an attribute");
-                            }
-                            match &arm.pat {
-                                Pat::TupleStruct(ts) if ts.path.is_ident("Some") && ts.elems.len() == 1 && !some => match &ts.elems[0] {
-                                    Pat::Ident(p) if p.by_ref.is_none() && p.mutability.is_none() && p.subpat.is_none() => {
-                                        some = true;
-                                        let x = p.ident.to_string();
-                                        arms.push((format!("some {}", lean_ident(&x)), Some((x, (**inner).clone())), &arm.body));
-                                    }
-                                    _ => return self.unsupported(arm.pat.span(), "match pattern (only `Some(x)` and `None`)"),
-                                },
-                                Pat::Ident(p) if p.ident == "None" && p.subpat.is_none() && p.by_ref.is_none() && p.mutability.is_none() && !none => {
-                                    none = true;
-                                    arms.push(("none".to_string(), None, &arm.body));
-                                }
-                                _ => return self.unsupported(arm.pat.span(), "match pattern (only `Some(x)` and `None`, once each)"),
-                            }
-                        }
-                        if !(some && none) {
-                            return self.unsupported(e.span(), "`match` on an Option without both `Some(x)` and `None` arms;");
-                        }
-                    }
-                    _ => return self.unsupported(e.span(), "`match` on a value that is neither a fieldless enum nor an Option;"),
-                }
-                let mut lines = vec![format!("match {} with  -- L{}", s.s, line_of(e.span()))];
-                self.match_depth += 1;
-                let mut res = Ok(());
-                for (pat, bound, body) in arms {
-                    let stmts: Vec<Stmt> = match body {
-                        Expr::Block(b) if b.label.is_none() && b.attrs.is_empty() => b.block.stmts.clone(),
-                        other => vec![Stmt::Expr(other.clone(), None)],
-                    };
-                    let mut env2 = env.clone();
-                    if let Some(b) = bound {
-                        env2.push(b);
-                    }
-                    match self.branch(&stmts, &env2, mode, rest, body.span()) {
-                        Ok(b) => {
-                            lines.push(format!("| {pat} =>  -- L{}", line_of(body.span())));
-                            lines.extend(indent(b));
-                        }
-                        Err(x) => {
-                            res = Err(x);
-                            break;
-                        }
-                    }
-                }
-                self.match_depth -= 1;
-                res?;
-                Ok(self.paren_match(lines))
-            }
-            _ => self.unsupported(e.span(), "control statement"),
-        }
-    }
-
-    /// a `match` nested in an arm of another `match` is parenthesised
-    fn paren_match(&self, mut lines: Vec<String>) -> Vec<String> {
-        if self.match_depth > 0 {
-            lines[0] = format!("({}", lines[0]);
-            // the closing parenthesis goes before a trailing comment, if any
-            let last = lines.len() - 1;
-            lines[last] = match lines[last].find("  -- ") {
-                Some(k) => format!("{}){}", &lines[last][..k], &lines[last][k..]),
-                None => format!("{})", lines[last]),
-            };
         }
         lines
     }
 
-    // ---------------------------------------------------------------- functions
-
-    fn function(&mut self, f: &syn::ImplItemFn) -> Res<Vec<String>> {
-        let sig = &f.sig;
-        self.fn_name = sig.ident.to_string();
-        self.deceq.clear();
-        self.match_depth = 0;
-        let sp = sig.span();
-        if sig.asyncness.is_some() || sig.unsafety.is_some() || sig.abi.is_some() || sig.variadic.is_some() {
-            return self.unsupported(sp, "async/unsafe/extern function");
+    /// a `match` nested in an arm of another `match` is parenthesised
+    fn paren_match(&self, lines: Vec<String>) -> Vec<String> {
+        if self.match_depth > 0 {
+            paren_lines(lines)
+        } else {
+            lines
         }
-        if !sig.generics.params.is_empty() || sig.generics.where_clause.is_some() {
-            return self.unsupported(sp, "generic function");
-        }
-        self.has_self = false;
-        self.self_mut = false;
-        let mut env: Env = vec![];
-        let mut binders: Vec<String> = vec![];
-        for a in &sig.inputs {
-            match a {
-                FnArg::Receiver(r) => {
-                    if r.reference.is_none() || r.colon_token.is_some() {
-                        return self.unsupported(r.span(), "receiver (only `&self` and `&mut self`)");
-                    }
-                    self.has_self = true;
-                    self.self_mut = r.mutability.is_some();
-                    let st = self.opts.self_type.clone().unwrap_or_else(|| self.opts.impl_type.clone());
-                    binders.push(format!("(self : {st})"));
-                }
-                FnArg::Typed(pt) => {
-                    let name = match &*pt.pat {
-                        Pat::Ident(p) if p.by_ref.is_none() && p.mutability.is_none() && p.subpat.is_none() => p.ident.to_string(),
-                        _ => return self.unsupported(pt.span(), "argument pattern (only `x: T`, no `mut`)"),
-                    };
-                    let t = self.ty(&pt.ty)?;
-                    binders.push(format!("({} : {})", lean_ident(&name), t.lean()));
-                    env.push((name, t));
-                }
-            }
-        }
-        if !self.has_self {
-            return self.unsupported(sp, "associated function without a `self` receiver");
-        }
-        self.ret = match &sig.output {
-            ReturnType::Default => Ty::Unit,
-            ReturnType::Type(_, t) => self.ty(t)?,
-        };
-        if !self.self_mut && self.ret == Ty::Unit {
-            return self.unsupported(sp, "`&self` method without a result");
-        }
-        let body = self.block(&f.block.stmts, &env, Mode::Tail, f.block.span())?;
-        let self_ty = self.opts.self_type.clone().unwrap_or_else(|| self.opts.impl_type.clone());
-        let ret = match (self.self_mut, &self.ret) {
-            (true, Ty::Unit) => self_ty.clone(),
-            (true, t) => format!("{} × {}", self_ty, paren_ty(&t.lean())),
-            (false, t) => t.lean(),
-        };
-        let inst: Vec<String> = self.deceq.iter().map(|v| format!("[DecidableEq {v}]")).collect();
-        let mut head = format!("def {}", lean_ident(&self.fn_name));
-        for b in inst.iter().chain(binders.iter()) {
-            head.push(' ');
-            head.push_str(b);
-        }
-        head.push_str(&format!(" : {ret} :="));
-        let (l0, l1) = (line_of(f.span()), f.span().end().line);
-        let what = match (self.self_mut, &self.ret) {
-            (true, Ty::Unit) => "returns the new `self`",
-            (true, _) => "returns `(new self, result)`",
-            (false, _) => "reads `self`",
-        };
-        let mut lines = vec![format!("/-- `{}::{}` ({} lines {}–{}); {} -/", self.opts.impl_type, self.fn_name, self.label, l0, l1, what), head];
-        lines.extend(indent(body));
-        Ok(lines)
     }
+}
+
+fn paren_lines(mut lines: Vec<String>) -> Vec<String> {
+    lines[0] = format!("({}", lines[0]);
+    // the closing parenthesis goes before a trailing comment, if any
+    let last = lines.len() - 1;
+    lines[last] = match lines[last].find("  -- ") {
+        Some(k) => format!("{}){}", &lines[last][..k], &lines[last][k..]),
+        None => format!("{})", lines[last]),
+    };
+    lines
 }
 
 fn flatten(out: Vec<Chunk>) -> Vec<String> {
@@ -1103,11 +784,11 @@ fn flatten(out: Vec<Chunk>) -> Vec<String> {
     for c in out {
         match c {
             Chunk::Lines(l) => lines.extend(l),
-            Chunk::LetSelf(l) => {
+            Chunk::LetState(p, l) => {
                 if l.len() == 1 {
-                    lines.push(format!("let self := {}", l[0]));
+                    lines.push(format!("let {p} := {}", l[0]));
                 } else {
-                    lines.push("let self :=".to_string());
+                    lines.push(format!("let {p} :="));
                     lines.extend(indent(l));
                 }
             }
@@ -1120,26 +801,84 @@ fn flatten(out: Vec<Chunk>) -> Vec<String> {
 /// guards the translator's own bookkeeping)
 fn assignable(slot: &Ty, v: &Ty) -> bool {
     match (slot, v) {
+        (_, Ty::Unknown) | (Ty::Unknown, _) => true,
         (Ty::Int(..), Ty::Int(0, _)) => true,
         (Ty::Int(a, _), Ty::Int(b, _)) => a == b,
         (Ty::Opt(_), Ty::Opt(b)) if **b == Ty::Unit => true, // `None`
         (Ty::Opt(a), Ty::Opt(b)) => assignable(a, b),
+        (Ty::Cell(a), Ty::Cell(b)) => assignable(a, b),
         (Ty::Vec(a), Ty::Vec(b)) => assignable(a, b),
+        (Ty::Tuple(a), Ty::Tuple(b)) => a.len() == b.len() && a.iter().zip(b).all(|(x, y)| assignable(x, y)),
         _ => slot == v,
     }
 }
 
 fn mentions(e: &Expr, name: &str) -> bool {
-    use quote::ToTokens;
-    e.to_token_stream().into_iter().any(|t| tokens_mention(t, name))
+    count_mentions(e, name) > 0
 }
 
-fn tokens_mention(t: proc_macro2::TokenTree, name: &str) -> bool {
+fn count_mentions(e: &Expr, name: &str) -> usize {
+    use quote::ToTokens;
+    e.to_token_stream().into_iter().map(|t| tokens_count(t, name)).sum()
+}
+
+fn tokens_count(t: proc_macro2::TokenTree, name: &str) -> usize {
     match t {
-        proc_macro2::TokenTree::Ident(i) => i == name,
-        proc_macro2::TokenTree::Group(g) => g.stream().into_iter().any(|t| tokens_mention(t, name)),
-        _ => false,
+        proc_macro2::TokenTree::Ident(i) => (i == name) as usize,
+        proc_macro2::TokenTree::Group(g) => g.stream().into_iter().map(|t| tokens_count(t, name)).sum(),
+        _ => 0,
     }
+}
+
+fn collect_idents(ts: proc_macro2::TokenStream, out: &mut BTreeSet<String>) {
+    for t in ts {
+        match t {
+            proc_macro2::TokenTree::Ident(i) => {
+                out.insert(i.to_string());
+            }
+            proc_macro2::TokenTree::Group(g) => collect_idents(g.stream(), out),
+            _ => {}
+        }
+    }
+}
+
+/// does `panic!` occur in the token stream?
+fn tokens_have_panic(ts: proc_macro2::TokenStream) -> bool {
+    let v: Vec<proc_macro2::TokenTree> = ts.into_iter().collect();
+    for (i, t) in v.iter().enumerate() {
+        match t {
+            proc_macro2::TokenTree::Ident(id) if id == "panic" => {
+                if let Some(proc_macro2::TokenTree::Punct(p)) = v.get(i + 1) {
+                    if p.as_char() == '!' {
+                        return true;
+                    }
+                }
+            }
+            proc_macro2::TokenTree::Group(g) => {
+                if tokens_have_panic(g.stream()) {
+                    return true;
+                }
+            }
+            _ => {}
+        }
+    }
+    false
+}
+
+fn is_panic_macro(m: &syn::Macro) -> bool {
+    m.path.is_ident("panic")
+}
+
+fn panic_message(m: &syn::Macro) -> String {
+    for t in m.tokens.clone() {
+        if let proc_macro2::TokenTree::Literal(l) = t {
+            let s = l.to_string();
+            if s.starts_with('"') && s.ends_with('"') && s.len() >= 2 {
+                return s[1..s.len() - 1].replace('\\', "");
+            }
+        }
+    }
+    String::new()
 }
 
 fn block_contains_return(b: &Block) -> bool {
@@ -1149,16 +888,18 @@ fn block_contains_return(b: &Block) -> bool {
 fn stmts_contain_return(stmts: &[Stmt]) -> bool {
     stmts.iter().any(|s| match s {
         Stmt::Expr(e, _) => expr_contains_return(e),
+        Stmt::Macro(m) => is_panic_macro(&m.mac),
         Stmt::Local(l) => l.init.as_ref().map(|i| expr_contains_return(&i.expr) || i.diverge.as_ref().map(|(_, d)| expr_contains_return(d)).unwrap_or(false)).unwrap_or(false),
         _ => false,
     })
 }
 
-/// does a `return` occur in the statement positions the translator descends into? (a `return` anywhere else is rejected
+/// does a `return` / `panic!` occur in the statement positions the translator descends into? (anywhere else it is rejected
 /// where it is met)
 fn expr_contains_return(e: &Expr) -> bool {
     match e {
         Expr::Return(_) => true,
+        Expr::Macro(m) => is_panic_macro(&m.mac),
         Expr::If(i) => block_contains_return(&i.then_branch) || i.else_branch.as_ref().map(|(_, b)| expr_contains_return(b)).unwrap_or(false),
         Expr::Match(m) => m.arms.iter().any(|a| expr_contains_return(&a.body)),
         Expr::Block(b) => block_contains_return(&b.block),
@@ -1170,6 +911,7 @@ fn expr_contains_return(e: &Expr) -> bool {
 fn definitely_returns(stmts: &[Stmt]) -> bool {
     match stmts.last() {
         Some(Stmt::Expr(e, _)) => expr_definitely_returns(e),
+        Some(Stmt::Macro(m)) => is_panic_macro(&m.mac),
         _ => false,
     }
 }
@@ -1177,6 +919,7 @@ fn definitely_returns(stmts: &[Stmt]) -> bool {
 fn expr_definitely_returns(e: &Expr) -> bool {
     match e {
         Expr::Return(_) => true,
+        Expr::Macro(m) => is_panic_macro(&m.mac),
         Expr::If(i) => match &i.else_branch {
             Some((_, b)) => definitely_returns(&i.then_branch.stmts) && expr_definitely_returns(b),
             None => false,
@@ -1187,133 +930,201 @@ fn expr_definitely_returns(e: &Expr) -> bool {
     }
 }
 
-/// Translate the functions `opts.fns` of `impl <opts.impl_type>` in `src`.
-pub fn translate(src: &str, opts: &Options) -> Res<String> {
-    let label = if opts.source_label.is_empty() { "<input>".to_string() } else { opts.source_label.clone() };
-    let file: syn::File = syn::parse_file(src).map_err(|e| Error(format!("{}:{}: parse error: {}", label, e.span().start().line, e)))?;
-    // the struct
-    let mut fields: Option<Vec<(String, Type)>> = None;
-    for it in &file.items {
-        if let Item::Struct(s) = it {
-            if s.ident == opts.impl_type.as_str() {
-                match &s.fields {
-                    syn::Fields::Named(n) => {
-                        fields = Some(n.named.iter().map(|f| (f.ident.as_ref().unwrap().to_string(), f.ty.clone())).collect());
-                    }
-                    _ => return Err(Error(format!("{}:{}: struct `{}` has no named fields", label, line_of(s.span()), opts.impl_type))),
-                }
-            }
-        }
+/// the variable at the root of an assigned place: `x`, `x.f.g`, `*x`, `&mut x.f`
+fn root_ident(e: &Expr) -> Option<String> {
+    match e {
+        Expr::Path(p) if p.qself.is_none() && p.path.segments.len() == 1 => Some(p.path.segments[0].ident.to_string()),
+        Expr::Field(f) => root_ident(&f.base),
+        Expr::Paren(p) => root_ident(&p.expr),
+        Expr::Group(p) => root_ident(&p.expr),
+        Expr::Unary(u) if matches!(u.op, UnOp::Deref(_)) => root_ident(&u.expr),
+        Expr::Reference(r) => root_ident(&r.expr),
+        Expr::Unsafe(u) => match u.block.stmts.as_slice() {
+            [Stmt::Expr(e, None)] => root_ident(e),
+            _ => None,
+        },
+        _ => None,
     }
-    let fields = fields.ok_or_else(|| Error(format!("{}: struct `{}` not found", label, opts.impl_type)))?;
-    // the inherent impl blocks
-    let mut methods: Vec<&syn::ImplItemFn> = vec![];
-    for it in &file.items {
-        if let Item::Impl(im) = it {
-            if im.trait_.is_some() {
-                continue;
-            }
-            let is_target = matches!(&*im.self_ty, Type::Path(p) if p.qself.is_none() && p.path.segments.last().map(|s| s.ident == opts.impl_type.as_str()).unwrap_or(false));
-            if !is_target {
-                continue;
-            }
-            if !im.generics.params.is_empty() {
-                return Err(Error(format!("{}:{}: outside the supported subset: generic impl block for `{}`", label, line_of(im.span()), opts.impl_type)));
-            }
-            for ii in &im.items {
-                if let ImplItem::Fn(f) = ii {
-                    methods.push(f);
-                }
-            }
-        }
-    }
-    let mut tr = Tr {
-        src_lines: src.lines().collect(),
-        file: &file,
-        opts,
-        label: label.clone(),
-        fields,
-        notes: Notes::default(),
-        fn_name: String::new(),
-        has_self: false,
-        self_mut: false,
-        ret: Ty::Unit,
-        deceq: BTreeSet::new(),
-        match_depth: 0,
-    };
-    if opts.fns.is_empty() {
-        return Err(Error("no function names given".to_string()));
-    }
-    let mut defs: Vec<Vec<String>> = vec![];
-    for name in &opts.fns {
-        let found: Vec<&&syn::ImplItemFn> = methods.iter().filter(|f| f.sig.ident == name.as_str()).collect();
-        match found.len() {
-            0 => return Err(Error(format!("{}: function `{}::{}` not found", label, opts.impl_type, name))),
-            1 => defs.push(tr.function(found[0])?),
-            _ => return Err(Error(format!("{}: function `{}::{}` is defined more than once (cfg alternatives are not supported)", label, opts.impl_type, name))),
-        }
-    }
-    // ---- output
-    let ns = opts.namespace.clone().unwrap_or_else(|| format!("Evenio.Gen.{}", opts.impl_type));
-    let mut out = String::new();
-    let imports = if opts.imports.is_empty() { vec!["Evenio.Generated.Rs2LeanPrelude".to_string()] } else { opts.imports.clone() };
-    for i in &imports {
-        out.push_str(&format!("import {i}\n"));
-    }
-    out.push_str(&format!("/-! GENERATED by tools/rs2lean from {} — do not edit.\n", label));
-    out.push_str(&format!("  `impl {}`: {}\n", opts.impl_type, opts.fns.join(", ")));
-    out.push_str("  A `&mut self` method is a function returning the new `self` (paired with the result, `(self, result)`, if there is one).\n");
-    out.push_str("  What the translation does not carry over:\n");
-    let n = &tr.notes;
-    if !n.arith.is_empty() {
-        out.push_str("   * unsigned integers are `Nat`: Rust's `+`/`-`/`+=`/`-=` panic on overflow/underflow in debug builds (wrap in release);\n     here `+` is unbounded and `-` is truncated subtraction:\n");
-        for a in &n.arith {
-            out.push_str(&format!("       {a}\n"));
-        }
-    }
-    if !n.asserts.is_empty() {
-        out.push_str("   * skipped assertions (the functions describe the runs in which they hold):\n");
-        for a in &n.asserts {
-            out.push_str(&format!("       {a}\n"));
-        }
-    }
-    if !n.casts.is_empty() {
-        out.push_str("   * narrowing casts:\n");
-        for a in &n.casts {
-            out.push_str(&format!("       {a}\n"));
-        }
-    }
-    if !n.vecs.is_empty() {
-        out.push_str("   * panicking Vec operations:\n");
-        for a in &n.vecs {
-            out.push_str(&format!("       {a}\n"));
-        }
-    }
-    if !n.eqs.is_empty() {
-        out.push_str("   * equality:\n");
-        for a in &n.eqs {
-            out.push_str(&format!("       {a}\n"));
-        }
-    }
-    out.push_str("-/\n");
-    out.push_str(&format!("namespace {ns}\n"));
-    let opens = if opts.opens.is_empty() && opts.imports.is_empty() { vec!["Evenio.Rs2Lean".to_string()] } else { opts.opens.clone() };
-    for o in &opens {
-        out.push_str(&format!("open {o}\n"));
-    }
-    if !opts.tyvars.is_empty() {
-        out.push_str(&format!("variable {{{} : Type}}\n", opts.tyvars.join(" ")));
-    }
-    for d in defs {
-        out.push('\n');
-        for l in d {
-            out.push_str(l.trim_end());
-            out.push('\n');
-        }
-    }
-    out.push_str(&format!("\nend {ns}\n"));
-    Ok(out)
 }
+
+/// the variables assigned in `e` (syntactic scan of the shapes the translator accepts), and the names bound by a `let` in it
+fn assigned_in_expr(e: &Expr, out: &mut Vec<String>, lets: &mut Vec<String>) {
+    let add = |x: Option<String>, out: &mut Vec<String>| {
+        if let Some(x) = x {
+            if !out.contains(&x) {
+                out.push(x);
+            }
+        }
+    };
+    match e {
+        Expr::Assign(a) => {
+            add(root_ident(&a.left), out);
+            assigned_in_expr(&a.right, out, lets);
+        }
+        Expr::Binary(b) => {
+            if matches!(b.op, BinOp::AddAssign(_) | BinOp::SubAssign(_) | BinOp::MulAssign(_) | BinOp::DivAssign(_) | BinOp::RemAssign(_) | BinOp::BitAndAssign(_) | BinOp::BitOrAssign(_) | BinOp::BitXorAssign(_) | BinOp::ShlAssign(_) | BinOp::ShrAssign(_)) {
+                add(root_ident(&b.left), out);
+            } else {
+                assigned_in_expr(&b.left, out, lets);
+            }
+            assigned_in_expr(&b.right, out, lets);
+        }
+        Expr::Call(c) => {
+            if let Expr::Path(p) = &*c.func {
+                let last = p.path.segments.last().map(|s| s.ident.to_string()).unwrap_or_default();
+                if (last == "take" || last == "replace" || last == "swap") && !c.args.is_empty() {
+                    add(root_ident(&c.args[0]), out);
+                }
+            }
+            for a in &c.args {
+                assigned_in_expr(a, out, lets);
+            }
+        }
+        Expr::MethodCall(m) => {
+            assigned_in_expr(&m.receiver, out, lets);
+            for a in &m.args {
+                assigned_in_expr(a, out, lets);
+            }
+        }
+        Expr::If(i) => {
+            assigned_in_expr(&i.cond, out, lets);
+            assigned_in_stmts(&i.then_branch.stmts, out, lets);
+            if let Some((_, b)) = &i.else_branch {
+                assigned_in_expr(b, out, lets);
+            }
+        }
+        Expr::Let(l) => {
+            pat_names(&l.pat, lets);
+            assigned_in_expr(&l.expr, out, lets);
+        }
+        Expr::Match(m) => {
+            assigned_in_expr(&m.expr, out, lets);
+            for a in &m.arms {
+                pat_names(&a.pat, lets);
+                assigned_in_expr(&a.body, out, lets);
+            }
+        }
+        Expr::Block(b) => assigned_in_stmts(&b.block.stmts, out, lets),
+        Expr::Unsafe(u) => assigned_in_stmts(&u.block.stmts, out, lets),
+        Expr::Paren(p) => assigned_in_expr(&p.expr, out, lets),
+        Expr::Group(p) => assigned_in_expr(&p.expr, out, lets),
+        Expr::Reference(r) => assigned_in_expr(&r.expr, out, lets),
+        Expr::Unary(u) => assigned_in_expr(&u.expr, out, lets),
+        Expr::Try(t) => assigned_in_expr(&t.expr, out, lets),
+        Expr::Cast(c) => assigned_in_expr(&c.expr, out, lets),
+        Expr::Field(f) => assigned_in_expr(&f.base, out, lets),
+        Expr::Tuple(t) => t.elems.iter().for_each(|e| assigned_in_expr(e, out, lets)),
+        Expr::Struct(s) => s.fields.iter().for_each(|f| assigned_in_expr(&f.expr, out, lets)),
+        Expr::Return(r) => {
+            if let Some(e) = &r.expr {
+                assigned_in_expr(e, out, lets)
+            }
+        }
+        _ => {}
+    }
+}
+
+fn assigned_in_stmts(stmts: &[Stmt], out: &mut Vec<String>, lets: &mut Vec<String>) {
+    for s in stmts {
+        match s {
+            Stmt::Expr(e, _) => assigned_in_expr(e, out, lets),
+            Stmt::Local(l) => {
+                pat_names(&l.pat, lets);
+                if let Some(i) = &l.init {
+                    assigned_in_expr(&i.expr, out, lets);
+                }
+            }
+            _ => {}
+        }
+    }
+}
+
+fn pat_names(p: &Pat, out: &mut Vec<String>) {
+    match p {
+        Pat::Ident(i) => {
+            let n = i.ident.to_string();
+            if n != "None" && !out.contains(&n) {
+                out.push(n);
+            }
+        }
+        Pat::Type(t) => pat_names(&t.pat, out),
+        Pat::Reference(r) => pat_names(&r.pat, out),
+        Pat::TupleStruct(ts) => ts.elems.iter().for_each(|e| pat_names(e, out)),
+        Pat::Tuple(t) => t.elems.iter().for_each(|e| pat_names(e, out)),
+        Pat::Paren(p) => pat_names(&p.pat, out),
+        Pat::Or(o) => o.cases.iter().for_each(|e| pat_names(e, out)),
+        _ => {}
+    }
+}
+
+/// split at top-level commas
+fn split_top(s: &str) -> Vec<String> {
+    let mut out = vec![];
+    let mut depth = 0i32;
+    let mut cur = String::new();
+    for c in s.chars() {
+        match c {
+            '(' | '<' | '[' => depth += 1,
+            ')' | '>' | ']' => depth -= 1,
+            _ => {}
+        }
+        if c == ',' && depth == 0 {
+            out.push(cur.trim().to_string());
+            cur.clear();
+        } else {
+            cur.push(c);
+        }
+    }
+    if !cur.trim().is_empty() {
+        out.push(cur.trim().to_string());
+    }
+    out
+}
+
+fn parse_prim(spec: &str, lean: &str) -> Result<Prim, String> {
+    let bad = || format!("--prim `{spec}`: expected `T::f(A, B) -> R`, `T::f(self, A) -> R` or `T::C: R`");
+    let (ty, rest) = spec.split_once("::").ok_or_else(bad)?;
+    let ty = ty.trim().to_string();
+    let rest = rest.trim();
+    if let Some(open) = rest.find('(') {
+        let name = rest[..open].trim().to_string();
+        // the matching `)` of the argument list
+        let mut depth = 0;
+        let mut close = None;
+        for (k, c) in rest.char_indices().skip(open) {
+            if c == '(' {
+                depth += 1;
+            } else if c == ')' {
+                depth -= 1;
+                if depth == 0 {
+                    close = Some(k);
+                    break;
+                }
+            }
+        }
+        let close = close.ok_or_else(bad)?;
+        let mut args = split_top(&rest[open + 1..close]);
+        let method = args.first().map(|a| a == "self" || a == "&self").unwrap_or(false);
+        if method {
+            args.remove(0);
+        }
+        let tail = rest[close + 1..].trim();
+        let ret = match tail.strip_prefix("->") {
+            Some(r) => r.trim().to_string(),
+            None if tail.is_empty() => "()".to_string(),
+            None => return Err(bad()),
+        };
+        if name.is_empty() {
+            return Err(bad());
+        }
+        Ok(Prim { ty, name, args: Some(args), method, ret, lean: lean.to_string(), spec: spec.to_string() })
+    } else {
+        let (name, ret) = rest.split_once(':').ok_or_else(bad)?;
+        Ok(Prim { ty, name: name.trim().to_string(), args: None, method: false, ret: ret.trim().to_string(), lean: lean.to_string(), spec: spec.to_string() })
+    }
+}
+
+include!("translate.rs");
 
 #[cfg(test)]
 mod tests;
